@@ -37,7 +37,7 @@ EXPLANATION += (' R-C10-8: the per-node maximum load (paired by position with th
 EXPLANATION += (' R-C10-9 (shared with R-C07-8 / R-C05-12): the per-point look-up tables of the binned law are never replaced or re-ordered after their construction; their rows are paired with the points of a load step by position.')
 EXPLANATION += (' R-C10-10: the rule R-C04-1 evaluated for this property (sample insensitivity rests on the junction of the two HCM passes: flush decision on the look-ahead sequence, trailing plateau taken at its first sample, second pass flushes); its open known finding is listed for C10 too.')
 EXPLANATION += (' R-C10-11: with per-point look-up tables of the binned law the class of every point is searched in that point\'s own table; a search with the first point\'s load whose result selects the rows of all points is reported (open known finding: four look-up methods).')
-EXPLANATION += (" R-C10-12: no method of FKMNonlinearDetector re-orders pandas data by labels or values (sort_index, sort_values, reindex, sample); the rows of a load step are paired by position with per-point tables that keep the order of appearance (expected count zero, built-in example).")
+EXPLANATION += (" R-C10-12: no method of FKMNonlinearDetector, no function of the assessment driver and no load-sequence accessor re-orders pandas data by labels or values (sort_index, sort_values, reindex, sample); the rows of a load step are paired by position with per-point tables that keep the order of appearance (expected count zero, built-in example).")
 ASSUMPTIONS = [
     "pandas groupby(level).reduction() reduces within each group only; element-wise numpy/pandas operations keep rows apart",
 ]
@@ -309,6 +309,18 @@ def _r12(ctx):
                          % (name, text), text="label re-ordering in " + name)
     if not hits:
         ctx.holds(ci.key, None, "%d methods of the detector: no sort_index / sort_values / reindex" % len(ci.methods))
+    # ... and neither do the assessment driver nor the load-sequence accessor, where the per-point maximum loads that the tables
+    # are built from come into being: sorted by node id they no longer line up with the points of a load step
+    n2 = 0
+    for key, fi in sorted(prog.functions.items()):
+        if fi.module.name not in ("pylife.strength.fkm_nonlinear.assessment_nonlinear_standard", "pylife.strength.fkm_load_distribution") or fi.parent is not None:
+            continue
+        n2 += 1
+        for c, text in label_reorderings(fi.node):
+            hits.append(c)
+            ctx.violated(fi, c, "%s re-orders pandas data by labels (%s): the per-point maximum loads / parameters are paired by position with "
+                         "the points of a load step, in their order of appearance" % (fi.qualname, text), text="label re-ordering in " + fi.qualname)
+    ctx.holds("pylife.strength.fkm_nonlinear", None, "%d functions of the assessment driver and the load-sequence accessors scanned" % n2)
 
 
 def run(ctx):
